@@ -76,6 +76,9 @@ func (p *c13prop) Plan(tier string, seed int64) []core.Segment {
 		// the old life ends and the new one begins with a reader that has
 		// nothing for 50-99 calls in a row
 		segs = append(segs, core.Segment{Kind: "stallreset:" + t, N: 200 * m})
+		// the old life worked in a caller slice with a capacity of several
+		// BufferSize; the new one is filled by readers that offer too much
+		segs = append(segs, core.Segment{Kind: "hugecap:" + t, N: 300 * m})
 	}
 	// (two cases also in the quick tier: whether the race detector gets to
 	// see two unsynchronised accesses depends on the configurations drawn and
@@ -259,6 +262,40 @@ func (p *c13prop) Gen(kind string, idx int64, seed int64, tier string) core.Case
 				cc.H2 = append(cc.H2, POp{K: "parse", A: r.Intn(2)})
 			}
 			cc.H2 = append(cc.H2, POp{K: "write", B: 1 + r.Intn(60)}, POp{K: "parse"}, POp{K: "parse"})
+			return core.MkCase(p.id, kind, idx, seed, tier, cc)
+		}
+		if class == "hugecap" {
+			// old life: Reset(x) with a slice whose capacity is several times
+			// BufferSize (the buffer works in it directly); new life: Reset
+			// without data or with a short slice, then readers that offer more
+			// than fits: the reused parser must take exactly what a new one
+			// takes
+			if c.BufferSize < 32 || c.BufferSize > 4096 {
+				c.BufferSize = 32 + r.Intn(400)
+				c.ShrinkSize = r.Intn(c.BufferSize)
+			}
+			cc.Cfg = c
+			l1 := r.Intn(c.BufferSize)
+			cc.S2 = gen.Family(r, fam, 8*c.BufferSize+800, c.Hint())
+			cc.H1 = []POp{{K: "reset", A: 3, B: l1}}
+			for i, n := 0, r.Intn(4); i < n; i++ {
+				cc.H1 = append(cc.H1, POp{K: "parse", A: r.Intn(2)})
+			}
+			if r.Intn(3) == 0 {
+				cc.H1 = append(cc.H1, POp{K: "shrink"})
+			}
+			reset := POp{K: "reset", A: 0}
+			if r.Intn(3) == 0 {
+				reset = POp{K: "reset", A: 1 + r.Intn(2), B: r.Intn(30), C: r.Intn(20)}
+			}
+			cc.H2 = []POp{reset}
+			for j := 0; j < 4; j++ {
+				cc.H2 = append(cc.H2, POp{K: "readfrom", A: 1, B: r.Intn(100)})
+				for i, n := 0, 1+r.Intn(2+c.BufferSize/c.BlockSize); i < n && i < 30; i++ {
+					cc.H2 = append(cc.H2, POp{K: "parse", A: r.Intn(2)})
+				}
+				cc.H2 = append(cc.H2, POp{K: "shrink"})
+			}
 			return core.MkCase(p.id, kind, idx, seed, tier, cc)
 		}
 		if class == "stallreset" {
@@ -823,7 +860,7 @@ func (p *c13prop) Run(c *core.Case, st *core.Stats) []core.Violation {
 	}
 	main := &PCase{Cfg: cc.Cfg, Stream: cc.S2, Ops: cc.H2}
 	var pre *PCase
-	if class == "reset" || class == "zerostart" || class == "margin" || class == "ntlreset" || class == "bighash" || class == "manyresets" || class == "stallreset" || class == "refill" {
+	if class == "reset" || class == "zerostart" || class == "margin" || class == "ntlreset" || class == "bighash" || class == "manyresets" || class == "stallreset" || class == "refill" || class == "hugecap" {
 		pre = &PCase{Cfg: cc.Cfg, Stream: cc.S1, Ops: cc.H1}
 	}
 	// run A hands slices to Reset whose spare capacity holds garbage, run B
@@ -864,7 +901,7 @@ func (p *c13prop) Run(c *core.Case, st *core.Stats) []core.Violation {
 
 func init() {
 	core.Register(&c13prop{base{id: "C13", level: "exploration",
-		rule:        "reset clause: for all 7 parsers a used parser (random prior history H1 with several fills/Shrinks, small alphabets, long hash inputs and few hash bits so that stale table entries would verify against new data) and a new parser both execute Reset(x) (x nil or data on the copy/alias/huge-capacity paths, each parser with its own copy) followed by the same history H2; ALL observable results of H2 (n, err, blocks with nil == empty, Shrink values, ReadAt/ByteAt answers) are compared; twin clause: two new parsers, same calls; schedule clause: the whole check runs in a -race build, and 32 goroutines drive 32 distinct parser instances (long streams through 16-200 byte buffers, hundreds of Shrinks each) plus a decoder instance each, several rounds; every goroutine's results are compared with the sequential reference run and every race detector report is a violation; non-trivial iff H2 produced a block with a match; distinct = distinct concrete case",
+		rule:        "reset clause: for all 7 parsers a used parser (random prior history H1 with several fills/Shrinks, small alphabets, long hash inputs and few hash bits so that stale table entries would verify against new data) and a new parser both execute Reset(x) (x nil or data on the copy/alias/huge-capacity paths, each parser with its own copy) followed by the same history H2 (hugecap kind: the old life worked inside a caller slice with a capacity of 4*BufferSize+100, the new one is filled by readers that offer more than fits); ALL observable results of H2 (n, err, blocks with nil == empty, Shrink values, ReadAt/ByteAt answers) are compared; twin clause: two new parsers, same calls; schedule clause: the whole check runs in a -race build, and 32 goroutines drive 32 distinct parser instances (long streams through 16-200 byte buffers, hundreds of Shrinks each) plus a decoder instance each, several rounds; every goroutine's results are compared with the sequential reference run and every race detector report is a violation; non-trivial iff H2 produced a block with a match; distinct = distinct concrete case",
 		assumptions: []string{"buffers <= 1017 bytes so that the read sizes offered to a reader do not depend on the capacity history of the buffer", "the race detector only sees the schedules that occurred"},
 		mandatory:   []string{"pairs_compared", "pairs_with_matches_after_reset", "pairs_reset_with_data", "pairs_reset_nil", "concurrent_rounds", "wrapped_pairs_compared", "wrapped_pairs_first_stream_end_2", "parsers_reset_more_than_256_times", "lives_compared_with_planted_old_data", "pairs:bighash:HP"}}})
 }
